@@ -125,7 +125,9 @@ def run_cell(ctx, tr, cell, sigk):
         extra['nprocesses'] = npr
         extra['nphases'] = 3
     elif name in ('ensemble_sift', 'complete_ensemble_sift'):
-        extra.update(nensembles=3, nprocesses=npr, max_imfs=2, ensemble_noise=.1)
+        extra.update(nensembles=3, nprocesses=npr, max_imfs=2, ensemble_noise=.1,
+                     noise_mode=['single', 'flip'][(i + e + xi + npr + sigk) % 2])
+        ctx.count('noise_mode:' + extra['noise_mode'])
     elif name == 'sift':
         extra['max_imfs'] = 3
     case = {'kind': 'cell', 'cell': list(cell), 'signal': sigk}
